@@ -64,7 +64,7 @@ func loadProgram(repo string, patterns []string, extraContracts []string) (*Prog
 	if nerr > 0 {
 		return nil, fmt.Errorf("%d package load errors", nerr)
 	}
-	prog, _ := ssautil.AllPackages(pkgs, ssa.BuilderMode(0))
+	prog, _ := ssautil.AllPackages(pkgs, ssa.GlobalDebug)
 	prog.Build()
 	p := &Program{Repo: repo, Pkgs: pkgs, Prog: prog, fns: map[string]*ssa.Function{}, contracts: map[string]*Contract{},
 		ghostFuncs: map[string]*GhostFunc{}, ghostVars: map[string]*GhostVar{}, tags: map[string]int{}, allPkgs: map[string]*packages.Package{},
